@@ -1,49 +1,71 @@
 (* C11: the in-scope domain of the equality theorems, as executable
-   predicates.  Each conjunct excludes either a documented exclusion of the
-   property (keys / specifiers ending in "/"), the part of URL syntax that the
-   specification does not model, or one class of inputs on which the faithful
-   model and Node's algorithm really differ (each such class has a *_refuted
-   theorem with a witness in Properties.v). *)
-From V Require Import Common.Base C11.Str C11.EsbuildResolve C11.NodeSpec.
+   predicates.  The domain is the conjunction of
+     - the documented exclusions of the property (keys / specifiers ending in "/"),
+     - the fragment of URL syntax that the specification models (URL-plain
+       characters, no empty path segment), and
+     - the ABSENCE of every recorded refuted shape: each [shape_*] detector
+       below corresponds to exactly one [refuted_*] theorem of Properties.v /
+       one known finding D1..D10 (Examples.v shows that each witness violates
+       exactly its own conjunct).
+   [in_scope_*_split] (ScopeProofs.v) proves
+     in_scope = documented && fragment && no refuted shape. *)
+From V Require Import Common.Base C11.Str C11.EsbuildResolve C11.NodeSpec C11.SortLemmas.
 Local Open Scope Z_scope.
 
 Definition slash_s : str := [ch_slash].
 
-(* a target string: both sides agree on "invalid segment"; when valid it is
-   URL-plain and path.Join("/", t) is the plain concatenation (no empty
-   segment, no trailing "/"); a bare target of an imports map is not a URL *)
-Definition target_ok (imp : bool) (t : str) : bool :=
-  if prefixb dot_slash t then
-    Bool.eqb (find_invalid_segment t) (node_invalid_segments (skipn 2 t))
-    && (find_invalid_segment t
-        || (url_plain t
-            && str_eqb (path_join2 slash_s t) (ch_slash :: skipn 2 t)
-            && str_eqb (path_clean (ch_slash :: skipn 2 t)) (ch_slash :: skipn 2 t)))
-  else negb (imp && is_valid_url t).
-
-(* a pattern match (the part of the subpath that replaces "*") *)
-Definition pm_ok (p : str) : bool :=
-  Bool.eqb (find_invalid_segment p) (node_invalid_segments p)
-  && (find_invalid_segment p || url_plain p).
-
+(* ---------------- refuted shapes ---------------- *)
+(* D2: the two invalid-segment rules disagree on a target / on a pattern match *)
+Definition shape_segment_target (t : str) : bool :=
+  prefixb dot_slash t && negb (Bool.eqb (find_invalid_segment t) (node_invalid_segments (skipn 2 t))).
+Definition shape_segment_match (p : str) : bool :=
+  negb (Bool.eqb (find_invalid_segment p) (node_invalid_segments p)).
+(* D8: a bare target of an imports map that parses as a URL *)
+Definition shape_url_target (imp : bool) (t : str) : bool :=
+  negb (prefixb dot_slash t) && imp && is_valid_url t.
+(* D3 / D4 / D5: objects *)
 Fixpoint nodupb (l : list str) : bool :=
   match l with [] => true | x :: r => negb (mem_str x r) && nodupb r end.
+Definition shape_dup_key (kvs : list (str * json)) : bool := negb (nodupb (map fst kvs)).
+(* esbuild rejects a mixed object at any depth, Node only at the top of
+   "exports" (where both refuse: the conjunct over-excludes that one case) *)
+Definition shape_mixed_keys (kvs : list (str * json)) : bool := negb (consistent_keys (map fst kvs)).
+Definition shape_index_key (kvs : list (str * json)) : bool :=
+  existsb (fun kv => is_array_index (fst kv)) kvs.
+(* D1: a pattern key whose base is the whole match key *)
+Definition shape_pattern_base (mk k : str) : bool := str_eqb k (mk ++ [ch_star]).
+(* D10: esbuild refuses every specifier containing "*" *)
+Definition shape_star_specifier (mk : str) : bool := has_byte ch_star mk.
+(* D7: "#" and "#/..." *)
+Definition shape_hash_slash (sp : str) : bool :=
+  str_eqb sp [ch_hash] || prefixb [ch_hash; ch_slash] sp.
 
-(* an object: keys all start with "." or none does (esbuild rejects a mixed
-   object at any depth, Node only at the top of "exports"); no array-index
-   key (Node: Invalid Package Configuration); no duplicated key *)
-Definition obj_ok (kvs : list (str * json)) : bool :=
-  consistent_keys (map fst kvs)
-  && negb (existsb (fun kv => is_array_index (fst kv)) kvs)
-  && nodupb (map fst kvs).
+(* ---------------- modelled URL fragment ---------------- *)
+Definition no_empty_segment (rest : str) : bool :=
+  negb (existsb (fun g => str_eqb g []) (split_on (Z.eqb ch_slash) rest)).
+(* only matters for a target that both sides accept *)
+Definition fragment_target (t : str) : bool :=
+  if prefixb dot_slash t && negb (find_invalid_segment t)
+  then url_plain t && no_empty_segment (skipn 2 t) else true.
+Definition fragment_match (p : str) : bool := find_invalid_segment p || url_plain p.
 
-Fixpoint json_ok (imp : bool) (j : json) : bool :=
+(* ---------------- generic traversal ---------------- *)
+Fixpoint json_all (T : str -> bool) (O : list (str * json) -> bool) (j : json) : bool :=
   match j with
-  | JStr t => target_ok imp t
-  | JArr l => forallb (json_ok imp) l
-  | JObj kvs => obj_ok kvs && forallb (fun kv => json_ok imp (snd kv)) kvs
+  | JStr t => T t
+  | JArr l => forallb (json_all T O) l
+  | JObj kvs => O kvs && forallb (fun kv => json_all T O (snd kv)) kvs
   | JNull | JBad => true
   end.
+
+Definition target_no_shape (imp : bool) (t : str) : bool :=
+  negb (shape_segment_target t) && negb (shape_url_target imp t).
+Definition obj_no_shape (kvs : list (str * json)) : bool :=
+  negb (shape_mixed_keys kvs) && negb (shape_index_key kvs) && negb (shape_dup_key kvs).
+
+Definition target_ok (imp : bool) (t : str) : bool := target_no_shape imp t && fragment_target t.
+Definition obj_ok (kvs : list (str * json)) : bool := obj_no_shape kvs && true.
+Definition json_ok (imp : bool) (j : json) : bool := json_all (target_ok imp) obj_ok j.
 
 (* the pattern match that key k would produce for matchKey mk *)
 Definition pattern_match_of (mk k : str) : str :=
@@ -54,31 +76,39 @@ Definition pattern_match_of (mk k : str) : str :=
   | None => []
   end.
 
-(* a key of a subpath map, relative to the match key *)
-Definition key_ok (mk k : str) : bool :=
-  negb (ends_with_slash k)                        (* documented exclusion *)
-  && (count_byte ch_star k <=? 1)%nat             (* keys with several "*" are ignored by Node *)
-  && negb (str_eqb k (mk ++ [ch_star]))           (* pattern base = whole match key: refuted *)
-  && pm_ok (pattern_match_of mk k).
+Definition pm_ok (p : str) : bool := negb (shape_segment_match p) && fragment_match p.
+
+Definition key_no_shape (mk k : str) : bool :=
+  negb (shape_pattern_base mk k) && negb (shape_segment_match (pattern_match_of mk k)).
+Definition key_fragment (mk k : str) : bool := fragment_match (pattern_match_of mk k).
+Definition key_documented (k : str) : bool := negb (ends_with_slash k).
+Definition key_ok (mk k : str) : bool := key_documented k && key_no_shape mk k && key_fragment mk k.
 
 Definition match_key_ok (mk : str) : bool :=
   negb (ends_with_slash mk)                       (* documented exclusion *)
-  && negb (has_byte ch_star mk).                  (* esbuild refuses any specifier containing "*" *)
+  && negb (shape_star_specifier mk).
+
+Definition top_keys (P : str -> bool) (j : json) : bool :=
+  match j with JObj kvs => forallb (fun kv => P (fst kv)) kvs | _ => true end.
 
 Definition in_scope_exports (exports : json) (subpath : str) : bool :=
-  match_key_ok subpath && json_ok false exports
-  && match exports with
-     | JObj kvs => forallb (fun kv => key_ok subpath (fst kv)) kvs
-     | _ => true
-     end.
+  match_key_ok subpath && json_ok false exports && top_keys (key_ok subpath) exports.
 
 Definition in_scope_imports (imports : json) (specifier : str) : bool :=
   match_key_ok specifier && json_ok true imports
-  && negb (str_eqb specifier [ch_hash]) && negb (prefixb [ch_hash; ch_slash] specifier)
-  && match imports with
-     | JObj kvs => forallb (fun kv => key_ok specifier (fst kv)) kvs
-     | _ => true
-     end.
+  && negb (shape_hash_slash specifier)
+  && top_keys (key_ok specifier) imports.
+
+(* ---- the three components ---- *)
+Definition documented_ok (j : json) (mk : str) : bool :=
+  negb (ends_with_slash mk) && top_keys key_documented j.
+Definition fragment_ok (j : json) (mk : str) : bool :=
+  json_all fragment_target (fun _ => true) j && top_keys (key_fragment mk) j.
+Definition no_refuted_shape (imp : bool) (j : json) (mk : str) : bool :=
+  negb (shape_star_specifier mk)
+  && negb (imp && shape_hash_slash mk)
+  && json_all (target_no_shape imp) obj_no_shape j
+  && top_keys (key_no_shape mk) j.
 
 (* coarse outcome classes of the property: same path / same package
    specifier / refused *)
